@@ -268,7 +268,7 @@ fn file_strategy(tier: Tier) -> BoxedStrategy<FileSpec> {
 fn hash_strategy(tier: Tier) -> BoxedStrategy<HashCase> {
     let mode = prop_oneof![
         4 => Just(ModeArg::None),
-        2 => any::<[u8; 32]>().prop_map(|k| ModeArg::Keyed(k.to_vec())),
+        2 => gen::key32().prop_map(|k| ModeArg::Keyed(k.to_vec())),
         1 => prop::collection::vec(any::<u8>(), 0..=40).prop_map(ModeArg::Keyed),
         2 => gen::ctx_spec(300, false).prop_map(ModeArg::Derive),
     ];
